@@ -43,4 +43,8 @@ m = {
     "notes": "See DESIGN.md. Fixes of genuine defects are `fix:` commits in /repo and are listed in known_findings.jsonl.",
 }
 json.dump(m, open(os.path.join(V, "MANIFEST.json"), "w"), indent=1)
+# keep lean/EV.lean (root of the library) in sync with the property modules that exist
+props_dir = os.path.join(V, "lean", "EV", "Props")
+mods = sorted(f[:-5] for f in os.listdir(props_dir) if f.endswith(".lean"))
+open(os.path.join(V, "lean", "EV.lean"), "w").write("".join("import EV.Props.%s\n" % m for m in mods))
 print("MANIFEST: %d claimed, %d not claimed" % (len(checks), len(na)))
